@@ -76,8 +76,8 @@ func init() {
 			return result{}, fmt.Errorf("real-layout: digits must be 1..9 digits without leading/trailing zero")
 		}
 		x, text, err := decimalFloat(neg, digits, l)
-		if err != nil || x == 0 || math.IsInf(x, 0) {
-			return result{}, fmt.Errorf("real-layout: %s is outside the float64 range", text)
+		if err != nil || math.Abs(x) < 1e-300 || math.Abs(x) > 1e300 {
+			return result{}, fmt.Errorf("real-layout: %s is outside the range 1e-300..1e300 of DICT reals", text)
 		}
 		var enc []byte
 		if p, what := safely(func() { enc = cff.VerifC13EncodeFloat(x) }); p {
@@ -133,7 +133,7 @@ func init() {
 			// one unit in the ninth digit is still "the same to nine digits"
 			// only if it is the neighbouring 9-digit decimal of x
 			ulp := math.Pow(10, math.Floor(math.Log10(math.Abs(x)))-8)
-			if math.Abs(got-clampReal(x)) > 0.5000001*ulp && !(math.Abs(x) > 1e300 || math.Abs(x) < 1e-300) {
+			if math.Abs(got-clampReal(x)) > 0.50001*ulp && !(math.Abs(x) > 1e300 || math.Abs(x) < 1e-300) {
 				res.fail, res.sig = fmt.Sprintf("%v decodes as %v, nine-digit rounding gives %v", x, got, want), "c13-dict-real-value"
 			} else {
 				res.sig = "differs-from-strconv"
@@ -179,7 +179,7 @@ func genReal(run *vlib.Run, r *vlib.Rand, tier string) {
 	}
 	// every layout branch for every digit count
 	for m := 1; m <= 9; m++ {
-		for _, l := range []int{-300, -20, -3, -2, -1, 0, 1, m - 1, m, m + 1, m + 2, m + 3, m + 4, 20, 99, 100, 101, 300} {
+		for _, l := range []int{-299, -20, -3, -2, -1, 0, 1, m - 1, m, m + 1, m + 2, m + 3, m + 4, 20, 99, 100, 101, 300} {
 			for _, neg := range []bool{false, true} {
 				d := randDigits(r, m)
 				emit(run, realLayoutLine(neg, d, l), true, "real-layout", branch(m, l), fmt.Sprintf("real-digits:%d", m))
@@ -188,14 +188,14 @@ func genReal(run *vlib.Run, r *vlib.Rand, tier string) {
 	}
 	// digit patterns: all nines, powers of ten, inner zeros
 	for _, d := range [][]int{{1}, {9}, {9, 9, 9, 9, 9, 9, 9, 9, 9}, {1, 0, 0, 0, 0, 0, 0, 0, 1}, {1, 0, 1}, {5}, {3, 9, 6, 2, 5}} {
-		for _, l := range []int{-5, -1, 0, 1, 2, 3, 9, 10, 11, 12, 13, 308, -306} {
+		for _, l := range []int{-5, -1, 0, 1, 2, 3, 9, 10, 11, 12, 13, 300, -299} {
 			emit(run, realLayoutLine(false, d, l), true, "real-layout", branch(len(d), l), fmt.Sprintf("real-digits:%d", len(d)))
 		}
 	}
 	n := vlib.Count(tier, 800, 30000)
 	for i := 0; i < n; i++ {
 		m := r.Range(1, 9)
-		l := vlib.Pick(r, []int{r.Range(-4, 14), r.Range(-4, 14), r.Range(-306, 308), m + r.Range(-3, 4)})
+		l := vlib.Pick(r, []int{r.Range(-4, 14), r.Range(-4, 14), r.Range(-299, 300), m + r.Range(-3, 4)})
 		d := randDigits(r, m)
 		emit(run, realLayoutLine(r.Bool(), d, l), true, "real-layout", branch(m, l), fmt.Sprintf("real-digits:%d", m))
 	}
